@@ -220,6 +220,17 @@ func cmdCheck(args []string) int {
 		}
 		for c := range x.calleesUsed {
 			trusted["callee contract used at call sites: "+c] = true
+			// a function contract that no property check ever verifies is an assumption, and is listed as one
+			for k, b := range e.blocks {
+				if b.Kind == "func" && !b.Flags["trusted"] && !b.Flags["inline"] && len(b.Props) == 0 && strings.Replace(k, "|", ".", 1) == c {
+					trusted["ASSUMED (contract block without a property tag, never verified): "+c] = true
+				}
+			}
+			for k, b := range e.blocks {
+				if b.Kind == "func" && b.Flags["trusted"] && strings.Replace(k, "|", ".", 1) == c {
+					trusted["TRUSTED (declared trusted, body not verified): "+c] = true
+				}
+			}
 		}
 		for _, o := range x.obls {
 			if o.Result == nil {
